@@ -132,6 +132,7 @@ func (w *Workspace) CopyHarness(name, dstDir string) error {
 type Loaded struct {
 	Prog     *ssa.Program
 	Pkgs     map[string]*ssa.Package // by import path
+	Bad      map[string]string       // packages with load/type errors (not in Pkgs)
 	LoadTime time.Duration
 }
 
@@ -143,18 +144,21 @@ func LoadSSA(dir string, patterns ...string) (*Loaded, error) {
 	if err != nil {
 		return nil, err
 	}
-	var errs []string
+	bad := map[string]string{}
 	packages.Visit(pkgs, nil, func(p *packages.Package) {
-		for _, e := range p.Errors {
-			errs = append(errs, e.Error())
+		if len(p.Errors) > 0 {
+			var msgs []string
+			for i, e := range p.Errors {
+				if i < 3 {
+					msgs = append(msgs, e.Error())
+				}
+			}
+			bad[p.PkgPath] = strings.Join(msgs, "; ")
 		}
 	})
-	if len(errs) > 0 {
-		return nil, &LoadError{Errs: errs}
-	}
 	prog, spkgs := ssautil.AllPackages(pkgs, ssa.InstantiateGenerics)
 	prog.Build()
-	l := &Loaded{Prog: prog, Pkgs: map[string]*ssa.Package{}}
+	l := &Loaded{Prog: prog, Pkgs: map[string]*ssa.Package{}, Bad: bad}
 	for _, p := range spkgs {
 		if p != nil {
 			l.Pkgs[p.Pkg.Path()] = p
@@ -165,16 +169,24 @@ func LoadSSA(dir string, patterns ...string) (*Loaded, error) {
 			l.Pkgs[p.Pkg.Path()] = p
 		}
 	}
+	for path := range bad {
+		delete(l.Pkgs, path)
+	}
 	l.LoadTime = time.Since(t0)
 	return l, nil
 }
 
-type LoadError struct{ Errs []string }
-
-func (e *LoadError) Error() string {
-	n := len(e.Errs)
-	if n > 8 {
-		n = 8
+// FirstBad returns an error describing the load/type errors, if any.
+func (l *Loaded) FirstBad() error {
+	if len(l.Bad) == 0 {
+		return nil
 	}
-	return "package load/type errors:\n  " + strings.Join(e.Errs[:n], "\n  ")
+	var msgs []string
+	for p, m := range l.Bad {
+		msgs = append(msgs, p+": "+m)
+		if len(msgs) >= 6 {
+			break
+		}
+	}
+	return fmt.Errorf("package load/type errors:\n  %s", strings.Join(msgs, "\n  "))
 }
